@@ -297,8 +297,20 @@ def check(ctx):
     ctx.check(rt == "M", "C10.bit-order", neg, "two's complement result %s" % _n(rt), "the negated number is returned MSB-first",
               "_convert_to_negative_twos_complement returns an %s list; its caller adds it to an MSB-first operand" % _n(rt))
     Fn = Facts(neg)
-    ctx.check(Fn.iters() == ["zip(self.get_n_fresh(len(bits)), [~(_b0) for _b0 in bits])"] and Fn.assigns("double_implied") == ["CNF.xnor_vars(lhs, rhs)"],
-              "C10.bit-order", neg, "flip", "flipped[i] <-> ~bits[i] position by position", "the bit flip of the two's complement changed")
+    flip_ok = False
+    for lp_ in [x for x in Fn.stmts if isinstance(x, ast.For) and isinstance(x.target, ast.Tuple) and len(x.target.elts) == 2]:
+        it_ = str(Fn.at(lp_, lp_.iter))
+        xs_ = [c for c in ast.walk(lp_) if isinstance(c, ast.Call) and call_attr(c) == "xnor_vars" and len(c.args) == 2]
+        if not it_.startswith("zip(") or len(xs_) != 1:
+            continue
+        a_, b_ = [t.id if isinstance(t, ast.Name) else "?" for t in lp_.target.elts]
+        p_, q_ = ast.unparse(xs_[0].args[0]), ast.unparse(xs_[0].args[1])
+        F_ = "self.get_n_fresh(len(bits))"
+        if it_ == "zip(%s, [~(_b0) for _b0 in bits])" % F_ and (p_, q_) == (a_, b_):
+            flip_ok = True
+        if it_ == "zip(%s, bits)" % F_ and (p_, q_) in ((a_, "~" + b_), ("~" + b_, a_)):
+            flip_ok = True
+    ctx.check(flip_ok, "C10.bit-order", neg, "flip", "flipped[i] <-> ~bits[i] position by position", "the bit flip of the two's complement changed")
 
     # ---- definedness of the fresh variables of these functions (shared with C03)
     from . import C03
